@@ -49,6 +49,8 @@ def gen_cases(tier, seed):
                                "levels": sl.HC_LEVELS if not big else sl.HC_LEVELS_CHEAP}}
                     c["arena"] = sl.arena_need(geo, M, nb) + 2 * sl.K64 + 72000 + 4096
                     cases.append(c)
+    for i in range({"quick": 6, "search": 10, "thorough": 30}[tier]):
+        cases.append({"bseed": rng.randrange(1 << 48), "kind": "renorm_big", "fam": "f", "arena": 1 << 20})
     if tier == "thorough" :
         cases.append({"bseed": rng.randrange(1 << 48), "kind": "long_f", "fam": "f", "geo": "ring", "M": 4096, "nblocks": 3000,
                       "p": {"pinject": 1.0, "pdict": 0, "pfail": 0.0}, "arena": 400000, "p_realdec": 0.02})
@@ -65,6 +67,8 @@ def gen_cases(tier, seed):
 worker_init = sl.worker_init
 
 def run_case(st, case):
+    if case["kind"] == "renorm_big":
+        return sl.run_scenario(st, case, lambda S, rng: sl.scen_renorm_big(S, rng))
     if case["kind"].startswith("real2g"):
         return sl.run_scenario(st, case, lambda S, rng: sl.scen_real2g(S, rng, case["fam"]))
     def fn(S, rng):
